@@ -20,9 +20,11 @@ def parse(diff_text):
             cur, hunk = None, None
             continue
         if raw.startswith("+++ "):
-            path = raw[4:].strip()
+            path = raw[4:].split("\t")[0].strip()
             if path.startswith("b/"):
                 path = path[2:]
+            if "/" + PKG + "/" in "/" + path:
+                path = PKG + "/" + ("/" + path).split("/" + PKG + "/", 1)[1]     # diff -ru base/opticomlib new/opticomlib
             cur = files.setdefault(path, [])
             hunk = None
             continue
@@ -70,22 +72,45 @@ def apply_to_text(text, hunks):
     return "\n".join(out)
 
 
-def patched_sources(diff_path, root="/repo"):
-    """{module name: new source} for the package modules the diff touches, or None if it does not apply to the current tree"""
+def patched_sources(diff_path, root="/repo", base=None):
+    """{module name: new source} for the package modules the diff touches, or None if it does not apply to the current tree.
+    `base`: sources already patched by another diff (a seeded change made on top of a refactored tree)"""
     with open(diff_path, encoding="utf-8") as fh:
         files = parse(fh.read())
-    out = {}
+    out = dict(base or {})
+    touched = False
     for path, hunks in files.items():
         if not (path.startswith(PKG + "/") and path.endswith(".py")):
             continue
-        full = os.path.join(root, path)
-        if not os.path.exists(full):
-            return None
-        with open(full, encoding="utf-8") as fh:
-            text = fh.read()
+        mod = os.path.basename(path)[:-3]
+        if mod in out:
+            text = out[mod]
+        else:
+            full = os.path.join(root, path)
+            if not os.path.exists(full):
+                return None
+            with open(full, encoding="utf-8") as fh:
+                text = fh.read()
         new = apply_to_text(text, hunks)
         if new is None:
             return None
         if new != text:
-            out[os.path.basename(path)[:-3]] = new
-    return out or None
+            out[mod] = new
+            touched = True
+    return out if (touched or base) and out else None
+
+
+def seeded_sources(seed_dir, root="/repo"):
+    """sources for a stored seeded change: its patch, applied on top of its recorded base diff if it has one"""
+    import json
+    base = None
+    try:
+        meta = json.load(open(os.path.join(seed_dir, "meta.json")))
+    except Exception:
+        meta = {}
+    if meta.get("base_diff"):
+        verif = os.path.dirname(os.path.dirname(os.path.abspath(__file__)))
+        base = patched_sources(os.path.join(verif, meta["base_diff"]), root)
+        if base is None:
+            return None
+    return patched_sources(os.path.join(seed_dir, "patch.diff"), root, base)
